@@ -163,9 +163,20 @@ impl Env {
             ..Default::default()
         }
     }
+    /// the uri operations run on: for local tables the `file-object-store` scheme, which sends every call
+    /// (also copies and the latest-version lookup) through the ObjectStore API, i.e. through the wrapper;
+    /// snapshots use the plain path (scheme `file`: current_manifest_local and the local readers)
+    pub fn op_uri(&self) -> String {
+        if self.cfg.is_mem() {
+            self.uri.clone()
+        } else {
+            format!("file-object-store://{}", self.uri)
+        }
+    }
     /// open with a fresh session
     pub async fn open(&self, ctl: Option<Arc<Ctl>>, version: Option<u64>) -> lance::Result<Dataset> {
-        let mut b = DatasetBuilder::from_uri(&self.uri)
+        let uri = if ctl.is_some() { self.op_uri() } else { self.uri.clone() };
+        let mut b = DatasetBuilder::from_uri(&uri)
             .with_read_params(ReadParams { store_options: Some(self.store_params(ctl)), commit_handler: Some(self.handler()), ..Default::default() })
             .with_session(Arc::new(Session::default()));
         if let Some(v) = version {
@@ -241,12 +252,12 @@ pub async fn run_op(env: &Env, op: &str, ctl: Arc<Ctl>, variant: u64) -> Result<
     let c = Some(ctl.clone());
     if op == "create" {
         let n = 20 + 3 * variant as i32;
-        Dataset::write(reader(batch(0, n, 10)), &env.uri, Some(env.write_params(c, WriteMode::Create))).await.map_err(es)?;
+        Dataset::write(reader(batch(0, n, 10)), &env.op_uri(), Some(env.write_params(c, WriteMode::Create))).await.map_err(es)?;
         return Ok(());
     }
     if op == "overwrite_uri" {
         // by uri: CommitBuilder resolves the destination itself
-        Dataset::write(reader(batch(100, 112 + variant as i32, 3)), &env.uri, Some(env.write_params(c, WriteMode::Overwrite))).await.map_err(es)?;
+        Dataset::write(reader(batch(100, 112 + variant as i32, 3)), &env.op_uri(), Some(env.write_params(c, WriteMode::Overwrite))).await.map_err(es)?;
         return Ok(());
     }
     let mut ds = env.open(c.clone(), None).await.map_err(es)?;
